@@ -35,56 +35,68 @@ Definition model_outs (c : case) : list (list out) :=
 Definition model_agrees (c : case) : bool :=
   list_eqb (list_eqb out_eqb) (model_outs c) (c_obs c).
 
-(* ---- bookkeeping shared by the three property monitors (computed from the operations only) ----
-   where : which spans are buffered, which traces have a recorded decision *)
+(* ---- bookkeeping shared by the three property monitors (computed from the operations and the oracles,
+   never from the model): which spans are buffered, which traces have a recorded decision, the counts a
+   decision record should hold ---- *)
+Definition cnt := (N * N * N * N)%type.        (* descendants, span events, links, spans *)
+Definition cnt_add (a : N) (c : cnt) : cnt :=
+  let '(d, e, l, s) := c in
+  (d + 1, (if N.eqb a 1 then e + 1 else e), (if N.eqb a 2 then l + 1 else l),
+   (if N.eqb a 1 || N.eqb a 2 then s else s + 1))%N.
+Definition cnt_of (l : list span) : cnt := fold_left (fun c sp => cnt_add (s_ann sp) c) l (0, 0, 0, 0)%N.
+
 Record book := { b_spans : amap span;          (* span id -> span, every span seen so far *)
                  b_buf : list N;               (* trace ids with a live buffered trace *)
                  b_bufspans : list span;       (* spans currently buffered, arrival order *)
-                 b_dec : amap (bool * N * string);   (* trace id -> latest recorded decision (keep, rate, reason) *)
-                 b_dropped : list N;           (* trace ids ever recorded as dropped (dropped wins) *)
+                 b_dec : amap (N * string * cnt);   (* trace id -> latest recorded KEEP decision: rate, reason, counts *)
+                 b_dropped : list N;           (* trace ids recorded as dropped (dropped wins in CheckSpan) *)
                  b_cfg : cfg; b_host : bool }.
 
 Definition book_init (c : cfg) : book :=
   {| b_spans := []; b_buf := []; b_bufspans := []; b_dec := []; b_dropped := []; b_cfg := c; b_host := c_hostmeta c |}.
 
-Inductive path := POnTime | PLate | PStress | PNone.
+Inductive path := PBuffered | PLateDropped | PLateKept (rate : N) (reason : string) (c : cnt) | PNew.
 
-(* classification of a span operation before it is applied *)
-Definition span_path (b : book) (sp : span) : path :=
-  if mem_N (s_tid sp) (b_buf b) then PNone
-  else if mem_N (s_tid sp) (b_dropped b) then PLate
-  else match alookup (s_tid sp) (b_dec b) with Some _ => PLate | None => PNone end.
+(* classification of a span before it is processed; for a kept record the counts include this span *)
+Definition span_path (b : book) (sp : span) (stress : bool) : path :=
+  if negb stress && mem_N (s_tid sp) (b_buf b) then PBuffered
+  else if mem_N (s_tid sp) (b_dropped b) then PLateDropped
+  else match alookup (s_tid sp) (b_dec b) with
+       | Some (rate, reason, c) => PLateKept rate reason (cnt_add (s_ann sp) c)
+       | None => PNew
+       end.
+
+Definition with_spans (b : book) (sp : span) : book :=
+  {| b_spans := aset (s_id sp) sp (b_spans b); b_buf := b_buf b; b_bufspans := b_bufspans b;
+     b_dec := b_dec b; b_dropped := b_dropped b; b_cfg := b_cfg b; b_host := b_host b |}.
+Definition with_dec (b : book) (d : amap (N * string * cnt)) (dr : list N) : book :=
+  {| b_spans := b_spans b; b_buf := b_buf b; b_bufspans := b_bufspans b;
+     b_dec := d; b_dropped := dr; b_cfg := b_cfg b; b_host := b_host b |}.
 
 Definition book_step (dec sdec : N -> N * bool * string) (b : book) (o : op) : book :=
   match o with
   | Span sp =>
-      let b1 := {| b_spans := aset (s_id sp) sp (b_spans b); b_buf := b_buf b; b_bufspans := b_bufspans b;
-                   b_dec := b_dec b; b_dropped := b_dropped b; b_cfg := b_cfg b; b_host := b_host b |} in
-      match span_path b sp with
-      | PLate => b1
+      let b1 := with_spans b sp in
+      match span_path b sp false with
+      | PLateDropped => b1
+      | PLateKept rate reason c => with_dec b1 (aset (s_tid sp) (rate, reason, c) (b_dec b)) (b_dropped b)
       | _ => {| b_spans := b_spans b1; b_buf := if mem_N (s_tid sp) (b_buf b) then b_buf b else s_tid sp :: b_buf b;
                 b_bufspans := b_bufspans b ++ [sp]; b_dec := b_dec b; b_dropped := b_dropped b;
                 b_cfg := b_cfg b; b_host := b_host b |}
       end
   | Stress sp =>
-      let spans := aset (s_id sp) sp (b_spans b) in
-      if mem_N (s_tid sp) (b_dropped b) then
-        {| b_spans := spans; b_buf := b_buf b; b_bufspans := b_bufspans b; b_dec := b_dec b;
-           b_dropped := b_dropped b; b_cfg := b_cfg b; b_host := b_host b |}
-      else match alookup (s_tid sp) (b_dec b) with
-           | Some _ => {| b_spans := spans; b_buf := b_buf b; b_bufspans := b_bufspans b; b_dec := b_dec b;
-                          b_dropped := b_dropped b; b_cfg := b_cfg b; b_host := b_host b |}
-           | None =>
-               let '(rate, keep, reason) := sdec (s_tid sp) in
-               {| b_spans := spans; b_buf := b_buf b; b_bufspans := b_bufspans b;
-                  b_dec := if keep then aset (s_tid sp) (true, rate, reason) (b_dec b) else b_dec b;
-                  b_dropped := if keep then b_dropped b else s_tid sp :: b_dropped b;
-                  b_cfg := b_cfg b; b_host := b_host b |}
-           end
+      let b1 := with_spans b sp in
+      match span_path b sp true with
+      | PLateDropped => b1
+      | PLateKept rate reason c => with_dec b1 (aset (s_tid sp) (rate, reason, c) (b_dec b)) (b_dropped b)
+      | _ => let '(rate, keep, reason) := sdec (s_tid sp) in
+             if keep then with_dec b1 (aset (s_tid sp) (rate, reason, (0, 0, 0, 0)%N) (b_dec b)) (b_dropped b)
+             else with_dec b1 (b_dec b) (s_tid sp :: b_dropped b)
+      end
   | Decide =>
       let upd := fold_left (fun acc tid =>
                    let '(rate, keep, reason) := dec tid in
-                   if keep then (aset tid (true, rate, reason) (fst acc), snd acc)
+                   if keep then (aset tid (rate, reason, cnt_of (filter (fun sp => N.eqb (s_tid sp) tid) (b_bufspans b))) (fst acc), snd acc)
                    else (fst acc, tid :: snd acc)) (b_buf b) (b_dec b, b_dropped b) in
       {| b_spans := b_spans b; b_buf := []; b_bufspans := []; b_dec := fst upd; b_dropped := snd upd;
          b_cfg := b_cfg b; b_host := b_host b |}
@@ -94,3 +106,14 @@ Definition book_step (dec sdec : N -> N * bool * string) (b : book) (o : op) : b
   end.
 
 Definition maxone (n : N) : N := if (n <? 1)%N then 1%N else n.
+
+(* generic monitor skeleton: [judge b o outs] looks at one operation in the state of the book before it *)
+Fixpoint monitor_with (judge : book -> op -> list out -> codes) (dec sdec : N -> N * bool * string)
+         (b : book) (ops : list op) (obs : list (list out)) : codes :=
+  match ops, obs with
+  | [], [] => []
+  | o :: r, outs :: s => judge b o outs ++ monitor_with judge dec sdec (book_step dec sdec b o) r s
+  | _, _ => [code_mismatch]
+  end.
+
+Definition sids (l : list out) : list N := map o_sid l.
